@@ -126,9 +126,13 @@ type Program struct {
 	// overwritten with recognisable poison values as soon as the first user
 	// function is entered: an argument that is read after that moment shows.
 	Bare bool `json:"bare,omitempty"`
-	// Base is the import path of the program\'s package (set by Files); programs
+	// Base is the import path of the program's package (set by Files); programs
 	// with imported functions have helper packages Base/ha, Base/hb, Base/hc.
-	Base           string   `json:"-"`
+	Base string `json:"-"`
+	// AliasImports: the helper packages are imported under local names that
+	// differ from their package names (fns ".../ha", vis ".../hc").
+	AliasImports   bool     `json:"alias_imports,omitempty"`
+	inHelper       bool     // printing a signature inside the helper package
 	Features       []string `json:"features,omitempty"`
 	NumFns         int      `json:"num_fns"`
 	NumSites       int      `json:"num_sites"` // rt.A sites
